@@ -3,8 +3,8 @@
    backend, versus the model (Model/Filter.v, Model/FilterStack.v) and versus the property's
    specification. *)
 From Coq Require Import String.
-From OCI Require Export Base.Outcome Model.Filter Model.FilterStack.
-From OCI Require Import Proofs.Funcs Proofs.FilterSelect Proofs.FilterStack.
+From OCI Require Export Base.Outcome Model.Filter Model.FilterStack Model.FilterIter.
+From OCI Require Import Proofs.Funcs Proofs.FilterSelect Proofs.FilterStack Proofs.FilterIter.
 
 (* ---------- the policy, as data ---------- *)
 
@@ -72,7 +72,18 @@ Inductive case :=
          (ys : list yld) (delivered : N)
   (* a method promoted from the embedded Funcs field of the outermost wrapper: is that field
      nil, what the call returned, how many calls reached the policies and the backend *)
-  | CPromoted (top : lay) (under : list lay) (m : method) (embedded_nil : bool) (r : result) (ncalls : N).
+  | CPromoted (top : lay) (under : list lay) (m : method) (embedded_nil : bool) (r : result) (ncalls : N)
+  (* an iterator method (Repositories, Tags, Referrers) as Go evaluates it: the method is
+     called once with the arguments of [o]; the Seq it returns is then iterated once per
+     caller of [cs], in order (never, once, again and again), each caller answering its
+     yields as it pleases - stop anywhere, stop on the error, carry on after the error.
+     [evs]: what the recording backend's iterator hands to its callback, every time it is
+     iterated, for as long as the callback answers true.  Observed: [pre], the calls made on
+     the recording backend while the method call ran; per iteration, the yields the caller
+     received, the number of yields the recording backend's iterator made, and the calls
+     made on the recording backend during that iteration *)
+  | CIter (top : lay) (under : list lay) (o : op) (evs : list yld) (cs : list cons)
+          (pre : list op) (its : list (list yld * N * list op)).
 
 (* the policies of a configuration, outermost first *)
 Definition pols (top : lay) (under : list lay) : list policy := fst top :: map fst under.
@@ -98,6 +109,11 @@ Definition yld_eqb : yld -> yld -> bool := pair_eqb beqb (option_eqb err_eqb).
 Definition obs_eqb : result * list op -> result * list op -> bool :=
   pair_eqb result_eqb (list_eqb op_eqb).
 
+Definition it_obs := (list yld * N * list op)%type.
+Definition it_of (st : istate) : it_obs := (fst (fst st), N.of_nat (snd (fst st)), snd st).
+Definition it_eqb : it_obs -> it_obs -> bool :=
+  pair_eqb (pair_eqb (list_eqb yld_eqb) N.eqb) (list_eqb op_eqb).
+
 Definition model_agrees (c : case) : bool :=
   match c with
   | CHist _ top under hist obs =>
@@ -108,6 +124,9 @@ Definition model_agrees (c : case) : bool :=
       list_eqb yld_eqb ys ys' && N.eqb delivered (N.of_nat n)
   | CPromoted top under m embedded_nil r ncalls =>
       embedded_nil && result_eqb r (promoted_result m) && N.eqb ncalls 0
+  | CIter top under o evs cs pre its =>
+      let run := irun (map layer_of (pols top under)) evs o cs in
+      is_iter_op o && list_eqb op_eqb pre (fst run) && list_eqb it_eqb its (map it_of (snd run))
   end.
 
 (* ---------- the specification, read off the property ---------- *)
@@ -238,6 +257,32 @@ Fixpoint first_error (evs : list yld) : list yld :=
 Definition owed (ps : list policy) (evs : list yld) : list yld :=
   map (fun r => (r, None)) (filter (listable_all ps) (items_before_error evs)) ++ first_error evs.
 
+Definition is_nil {A} (l : list A) : bool := match l with [] => true | _ => false end.
+
+Fixpoint forall2b {A B} (p : A -> B -> bool) (la : list A) (lb : list B) : bool :=
+  match la, lb with
+  | [], [] => true
+  | a :: la', b :: lb' => p a b && forall2b p la' lb'
+  | _, _ => false
+  end.
+
+(* one iteration of the Seq of a REJECTED call, whoever iterates and whatever it answers:
+   the caller is handed the rejecting wrapper's error, once, with the zero item, and nothing
+   else; the wrapped registry is not called and its iterator makes no yield *)
+Definition refused_iteration (p : policy) (e : err) (it : it_obs) : bool :=
+  match it with
+  | ([(item, Some e')], n, []) => beqb item [] && same_rejection p e e' && N.eqb n 0
+  | _ => false
+  end.
+
+(* one iteration of the Seq of an allowed Tags / Referrers call by caller [c]: exactly what
+   the wrapped registry's iterator gives that caller - its yields up to and including the
+   first one the caller answers "stop" to (errors, and what follows them, included) - and
+   no call on the wrapped registry *)
+Definition direct_iteration (evs : list yld) (c : cons) (it : it_obs) : bool :=
+  let '(ys, n, calls) := it in
+  list_eqb yld_eqb ys (take_more c 0 evs) && N.eqb n (N.of_nat (length ys)) && is_nil calls.
+
 Definition obs_ok (c : case) : bool :=
   match c with
   | CHist _ top under hist obs => spec_hist (pols top under) hist obs
@@ -261,6 +306,30 @@ Definition obs_ok (c : case) : bool :=
       (* fails closed: an unsupported-operation error and nothing called *)
       match result_error r with
       | Some e => ecode_eqb (e_code e) UNSUPPORTED && N.eqb ncalls 0
+      | None => false
+      end
+  | CIter top under o evs cs pre its =>
+      let ps := pols top under in
+      match op_method o with
+      | Some m =>
+          is_iter m &&
+          match stack_rejection ps m o with
+          | Some (p, e) =>
+              (* rejected by some wrapper: the wrapped registry is not invoked - not by the
+                 call, not by any iteration under any caller *)
+              is_nil pre && forall2b (fun _ it => refused_iteration p e it) cs its
+          | None =>
+              match m with
+              | MRepositories =>
+                  (* nothing but this very call ever reaches the wrapped registry; every
+                     caller receives what it is owed up to the first yield it stops at *)
+                  forallb (op_eqb o) (pre ++ concat (map snd its)) &&
+                  forall2b (fun c it => list_eqb yld_eqb (fst (fst it)) (take_more c 0 (owed ps evs))) cs its
+              | _ =>
+                  (* exactly the direct call, and its Seq *)
+                  list_eqb op_eqb pre [o] && forall2b (direct_iteration evs) cs its
+              end
+          end
       | None => false
       end
   end.
@@ -287,6 +356,18 @@ Definition nontrivial (c : case) : bool :=
       | None => existsb (fun y => match snd y with None => negb (listable_all ps (fst y)) | Some _ => true end) evs
       end
   | CPromoted _ _ _ _ _ _ => true
+  | CIter top under o evs cs pre its =>
+      let ps := pols top under in
+      match op_method o with
+      | Some m =>
+          match stack_rejection ps m o with
+          | Some _ => negb (is_nil cs)
+          | None =>
+              negb (is_nil cs) &&
+              existsb (fun y => match snd y with None => negb (listable_all ps (fst y)) | Some _ => true end) evs
+          end
+      | None => false
+      end
   end.
 
 (* ---------- corr_sound ---------- *)
@@ -455,9 +536,75 @@ Proof.
   destruct (listable_all ps repo); cbn; now rewrite IH.
 Qed.
 
+(* --- iterator methods under every caller --- *)
+
+Lemma kept_upto_error_owed ps evs : kept_upto_error (stack_keep (map layer_of ps)) evs = owed ps evs.
+Proof.
+  exact (kept_yields_owed ps evs).   (* the two functions are the same fixpoint *)
+Qed.
+
+Lemma it_eqb_eq a b : it_eqb a b = true <-> a = b.
+Proof.
+  apply pair_eqb_eq; [apply pair_eqb_eq|].
+  - apply list_eqb_eq. apply pair_eqb_eq; [apply beqb_eq | apply option_eqb_eq, err_eqb_eq].
+  - apply N.eqb_eq.
+  - apply list_eqb_eq, op_eqb_eq.
+Qed.
+
+Lemma yields_eqb_refl ys : list_eqb yld_eqb ys ys = true.
+Proof.
+  apply (list_eqb_eq yld_eqb (pair_eqb_eq _ _ beqb_eq (option_eqb_eq err_eqb err_eqb_eq))). reflexivity.
+Qed.
+
+Lemma forall2b_map {A B} (p : A -> B -> bool) (f : A -> B) l :
+  (forall a, p a (f a) = true) -> forall2b p l (map f l) = true.
+Proof. intros H. induction l as [|a l IH]; cbn; [reflexivity|]. now rewrite H, IH. Qed.
+
+Lemma iter_sound top under o evs cs pre its :
+  model_agrees (CIter top under o evs cs pre its) = true ->
+  obs_ok (CIter top under o evs cs pre its) = true.
+Proof.
+  cbn [model_agrees obs_ok]. set (ps := pols top under).
+  assert (Eps : map layer_of ps = layer_of (fst top) :: map layer_of (map fst under)) by reflexivity.
+  intros H. apply andb_true_iff in H as [H Hi]. apply andb_true_iff in H as [Ho Hp].
+  apply (list_eqb_eq op_eqb op_eqb_eq) in Hp. apply (list_eqb_eq it_eqb it_eqb_eq) in Hi.
+  destruct (op_method o) as [m|] eqn:Em; [|destruct o; discriminate].
+  assert (Hm : is_iter m = true) by (destruct o; try discriminate; injection Em as <-; reflexivity).
+  rewrite Hm. cbn [andb].
+  pose proof (stack_rejection_denial ps m o Em) as Hs.
+  destruct (stack_rejection ps m o) as [[p e]|]; cbn [option_map snd] in Hs; symmetry in Hs.
+  - (* rejected *)
+    rewrite Eps in *. rewrite (irun_denied _ _ evs o e cs Ho Hs) in Hp, Hi. cbn [fst snd] in Hp, Hi.
+    subst pre its. cbn [is_nil andb]. rewrite map_map. apply forall2b_map. intros _.
+    cbn. rewrite same_rejection_refl. reflexivity.
+  - (* allowed by every wrapper *)
+    destruct o; try discriminate; injection Em as <-.
+    + (* Repositories *)
+      rewrite Eps in Hp, Hi, Hs. rewrite <- (star_denial_is_stack_denial _ start) in Hs.
+      destruct (irun_allowed_repos _ _ evs start cs Hs) as [Hf H2]. rewrite <- Eps in *.
+      rewrite Hf in Hp. subst pre its. cbn [app]. clear Hf.
+      rewrite <- (kept_upto_error_owed ps evs).
+      revert H2. generalize (snd (irun (map layer_of ps) evs (Repositories start) cs)). intros sts H2.
+      induction H2 as [|c st cs' sts' [Hg Hc] _ IH]; [reflexivity|].
+      apply andb_true_iff in IH as [IH1 IH2].
+      cbn [map concat forall2b]. unfold it_of at 1 3. cbn [fst snd]. unfold i_got in Hg.
+      rewrite Hc, Hg. cbn [app forallb]. rewrite op_eqb_refl, IH1, yields_eqb_refl, IH2. reflexivity.
+    + (* Tags *)
+      rewrite (irun_allowed_list _ evs _ cs (eq_refl : is_list_op (Tags r start) = true) Hs) in Hp, Hi.
+      cbn [fst snd] in Hp, Hi. subst pre its. cbn [list_eqb]. rewrite op_eqb_refl. cbn [andb].
+      rewrite map_map. apply forall2b_map. intros c. cbn.
+      rewrite yields_eqb_refl, N.eqb_refl. reflexivity.
+    + (* Referrers *)
+      rewrite (irun_allowed_list _ evs _ cs (eq_refl : is_list_op (Referrers r d art) = true) Hs) in Hp, Hi.
+      cbn [fst snd] in Hp, Hi. subst pre its. cbn [list_eqb]. rewrite op_eqb_refl. cbn [andb].
+      rewrite map_map. apply forall2b_map. intros c. cbn.
+      rewrite yields_eqb_refl, N.eqb_refl. reflexivity.
+Qed.
+
 Lemma corr_sound c : model_agrees c = true -> obs_ok c = true.
 Proof.
-  destruct c as [cd top under hist obs | top under start evs stop ys delivered | top under m en r ncalls];
+  destruct c as [cd top under hist obs | top under start evs stop ys delivered | top under m en r ncalls
+                 | top under o evs cs pre its];
     cbn [model_agrees obs_ok].
   - apply spec_hist_sound.
   - set (ps := pols top under).
@@ -494,6 +641,7 @@ Proof.
                  | MTags => Tags [] [] | MReferrers => Referrers [] [] []
                  end) m ltac:(destruct m; reflexivity) eq_refl) as [_ He].
     rewrite He. cbn. exact Hn.
+  - apply iter_sound.
 Qed.
 
 Definition mismatches (cs : list case) : list (N * bool) :=
